@@ -454,6 +454,10 @@ def batches(ctx):
     yield "random-deep-multi", [G.gen(ctx.rng, idx=20000 + i, n_ent=ctx.rng.randrange(4, 10), p_multi=0.7, p_kw=0.05, admissible=True)
                                 for i in range(60 if quick else 600)]
     yield "renamed-enum-in-select", [G.gen_renamed_in_select(ctx.rng, i) for i in range(60 if quick else 600)]
+    perms = 6 if quick else 24
+    yield "rename-chains", [G.gen_rename_chain(ctx.rng, 1000 * d + 10 * ki + pi, kind, d)
+                            for ki, kind in enumerate(sorted(G.SIMPLE) + ["BOOLEAN", "ENUM", "SELECT"])
+                            for d in (1, 2, 3, 4) for pi in range(perms if d >= 3 else 2)]
     yield "ancestor-through-multiple-supertypes", [G.gen_lattice(ctx.rng, i) for i in range(60 if quick else 600)]
     yield "random-any-supertype-order", [G.gen(ctx.rng, idx=30000 + i, n_ent=ctx.rng.randrange(3, 9), p_multi=0.6, p_kw=0.05)
                                          for i in range(40 if quick else 400)]
